@@ -190,7 +190,7 @@ pub fn run_batch<S: Scenario>(sc: &S, cfg: &RunCfg) -> BatchStats {
                                 rule: "does_not_terminate".into(),
                                 signature: serde_json::json!({"engine": engine}),
                                 detail: format!(
-                                    "engine {} run {} (seed {}) did not finish within {} s of wall-clock time: the code under test loops without yielding (each scenario bounds its own virtual time)",
+                                    "engine {} run {} (seed {}) did not finish within {} s of wall-clock time: the code under test loops without yielding, or everything is blocked with no timer pending (each scenario bounds its own virtual time)",
                                     engine, i, seed, limit_s
                                 ),
                                 engine: engine.to_string(),
